@@ -33,11 +33,9 @@ OPS_THEOREMS = (['pure_' + n for n in PURE_OPS]
                 + ['contract__quantize_notes', 'impure_stretch_note_sequence_in_place',
                    'impure_transpose_note_sequence_in_place', 'impure__quantize_notes'])
 
-# (b): one Lean file per operation family, present as soon as the model it talks about exists
-B_FILES = {
-    'NoteSeqVerif.Props.C11_quantize': ['wf_quantizeNotes', 'wf_quantize_absolute', 'wf_quantize_relative',
-                                        'no_invention_quantize_absolute', 'no_invention_quantize_relative'],
-}
+# (b): one Lean file per operation family (`Props/C11_<family>.lean`), each naming its theorems on
+# `-- THEOREMS:` lines at its top; a family is registered as soon as its file exists
+B_FILES = {}
 
 
 def b_modules():
@@ -737,7 +735,7 @@ def run(chk):
     # ---- dynamic cross-check + oracle on the real code
     rng = chk.subrng('dyn')
     g = Gen(rng)
-    per_op = chk.n(70, 2500)
+    per_op = chk.n(150, 2500)
     nfail = 0
     for op in DYNAMIC_OPS:
         for i in range(per_op):
